@@ -11,6 +11,7 @@ Lemma okn_pc_irrel : forall e c, okn true e c c = okn false e c c.
 Proof.
   induction e using expr_ind'; intros c0; cbn [okn]; try reflexivity.
   - destruct op; rewrite IHe2; reflexivity.
+  - rewrite IHe3. reflexivity.
   - rewrite IHe2. reflexivity.
   - rewrite IHe2. reflexivity.
   - destruct pre; [apply IHe | reflexivity].
@@ -66,7 +67,7 @@ Proof.
       repeat split; [exact H1 | apply IHe1; exact H2 | apply IHe2; exact H3 | exact H4 | rewrite Cf; lia |].
       rewrite <- ok_pc_irrel; [exact H6 | unfold same_cont; congruence].
   - (* cond *) destruct Hf as (H1 & H2 & H3 & H4 & H5).
-    repeat split; [exact H1 | apply IHe1; exact H2 | rewrite <- ok_pc_irrel by reflexivity; exact H3 | exact H4 | exact H5].
+    repeat split; [exact H1 | apply IHe1; exact H2 | rewrite <- ok_pc_irrel by reflexivity; exact H3 | apply IHe2; exact H4 | apply IHe3; exact H5].
   - (* assign *) destruct Hf as (H1 & H2 & H3 & H4 & H5).
     repeat split; [exact H1 | exact H2 | apply IHe1; exact H3 | rewrite <- ok_pc_irrel by reflexivity; exact H4 | apply IHe2; exact H5].
   - destruct Hf as (H1 & H2 & H3 & H4 & H5 & H6).
